@@ -18,7 +18,8 @@ namespace c01_positive {
         packed_sint64_refs  = 2,  // written delta coded, read without      -> pbf-delta-agrees
         optional_int32_ver  = 3,  // never decoded                          -> pbf-emitted-field-decoded
         required_int64_ts   = 4,  // read with get_sint64                   -> pbf-reader-kind-matches-proto
-        optional_Info_info  = 5
+        optional_Info_info  = 5,
+        packed_sint64_wide  = 6   // delta computed in 32 bits                -> pbf-delta-width
     };
 
     enum class Info : protozero::pbf_tag_type {
@@ -58,6 +59,13 @@ namespace c01_positive {
                 protozero::packed_field_sint64 f{b, static_cast<protozero::pbf_tag_type>(Msg::packed_sint64_refs)};
                 for (const auto r : refs) {
                     f.add_element(d.update(r));
+                }
+            }
+            {
+                osmium::DeltaEncode<uint32_t, int32_t> narrow;
+                protozero::packed_field_sint64 f{b, static_cast<protozero::pbf_tag_type>(Msg::packed_sint64_wide)};
+                for (const auto r : refs) {
+                    f.add_element(narrow.update(static_cast<uint32_t>(r)));
                 }
             }
             b.add_int32(Msg::optional_int32_ver, 1);
